@@ -190,11 +190,13 @@ impl ast::Stanza {
             })
             .map(|cn| Identifier::from(*cn))
             .collect::<HashSet<_>>();
-        let unused_captures = all_captures
+        let mut unused_captures = all_captures
             .difference(&used_captures)
             .filter(|i| !i.starts_with("_"))
             .map(|i| format!("@{}", i))
             .collect::<Vec<_>>();
+        // sorted, so that the message does not depend on hash order
+        unused_captures.sort();
         if !unused_captures.is_empty() {
             return Err(CheckError::UnusedCaptures(
                 unused_captures.join(" "),
